@@ -60,7 +60,7 @@ func runC03(t *testing.T, seed uint64, planJSON []byte, tier string) (res *Resul
 	// statements touching several rows
 	atPlanTweak = func(g *simkit.Gen, o *GenOpts) {
 		if g.Prob(0.7) {
-			o.PKKinds = pickSome(g, []string{"comp", "str", "comp", "auto", "int"}, 1)
+			o.PKKinds = pickSome(g, []string{"comp", "str", "comp", "auto", "int", "date"}, 1)
 		}
 		if g.Prob(0.6) {
 			o.MultiRow = true
@@ -76,7 +76,7 @@ func runC03(t *testing.T, seed uint64, planJSON []byte, tier string) (res *Resul
 func c03Opts(g *simkit.Gen) GenOpts {
 	o := defaultGenOpts()
 	o.Types = pickSome(g, []string{"int", "varchar", "bigint", "decimal", "datetime"}, 2)
-	o.PKKinds = pickSome(g, []string{"int", "str", "comp", "auto"}, 1)
+	o.PKKinds = pickSome(g, []string{"int", "str", "comp", "auto", "date", "ubig"}, 1)
 	o.WhereForms = pickSome(g, []string{"pk", "in", "between", "or", "paren", "and"}, 1)
 	o.Params = g.Prob(0.8)
 	return o
